@@ -55,3 +55,56 @@ package types
 //@   ensures result != nil
 //@ func MakeReimbursementTxSigner   pure trusted
 //@   ensures result != nil
+
+// ---------------------------------------------------------------------------------------------------------------------
+// Ghost model of account state behind the AccountAccessor interface (assumed contracts; the implementations in chain/account
+// are under contract for C07).  gh("name", key) is a ghost array of mathematical integers; pairkey pairs an accessor with an id.
+//@ spec func equityOf(a AccountAccessor, id common.Hash) mathint = gh("equity", pairkey(a, id))
+//@ spec func hasEquity(a AccountAccessor, id common.Hash) bool = gh("hasEquity", pairkey(a, id)) != 0
+//@ spec func supplyOf(a AccountAccessor, code common.Hash) mathint = gh("supply", pairkey(a, code))
+//@ spec func balanceOf(a AccountAccessor) mathint = gh("balance", a)
+
+//@ func (AccountAccessor).GetEquityState   trusted
+//@   modifies nothing
+//@   ensures result1 == nil ==> result0 != nil && hasEquity(recv, id) && (result0.Equity != nil ==> val(result0.Equity) == equityOf(recv, id))
+//@   ensures result1 != nil ==> result0 == nil
+//@   ensures result1 == ErrEquityNotExist ==> !hasEquity(recv, id)
+
+//@ func (AccountAccessor).SetEquityState   trusted
+//@   panics_if equity == nil
+//@   modifies gh("equity", pairkey(recv, id)), gh("hasEquity", pairkey(recv, id))
+//@   ensures result == nil && equity.Equity != nil ==> hasEquity(recv, id) && equityOf(recv, id) == val(equity.Equity)
+//@   ensures result != nil ==> equityOf(recv, id) == old(equityOf(recv, id)) && hasEquity(recv, id) == old(hasEquity(recv, id))
+
+//@ func (AccountAccessor).GetAssetCode   trusted
+//@   modifies nothing
+//@   ensures result1 == nil ==> result0 != nil
+//@ func (AccountAccessor).GetAssetCodeState   trusted
+//@   modifies nothing
+//@ func (AccountAccessor).GetAssetCodeTotalSupply   trusted
+//@   modifies nothing
+//@   ensures result1 == nil ==> result0 != nil && val(result0) == supplyOf(recv, code)
+//@ func (AccountAccessor).SetAssetCodeTotalSupply   trusted
+//@   modifies gh("supply", pairkey(recv, code))
+//@   ensures result == nil && val != nil ==> supplyOf(recv, code) == val(val)
+//@   ensures result != nil ==> supplyOf(recv, code) == old(supplyOf(recv, code))
+//@ func (AccountAccessor).GetCode   trusted
+//@   modifies nothing
+//@ func (AccountAccessor).GetCodeHash   trusted
+//@   modifies nothing
+//@ func (AccountAccessor).GetAddress   pure trusted
+//@   opt heap-independent
+
+// JSON decoding of transaction payloads: any well-typed value or an error (assumed)
+//@ func GetTransferAsset   trusted
+//@   modifies nothing
+//@   ensures result1 == nil ==> result0 != nil
+//@   ensures result1 != nil ==> result0 == nil
+
+//@ func (*AssetEquity).Clone
+//@   props C12
+//@   requires equity != nil
+//@   modifies nothing
+//@   ensures result != nil && fresh(result) && result.Equity != nil && fresh(result.Equity) && result.AssetCode == equity.AssetCode && result.AssetId == equity.AssetId
+//@   ensures equity.Equity != nil ==> val(result.Equity) == val(equity.Equity)
+//@   ensures equity.Equity == nil ==> val(result.Equity) == 0
